@@ -139,6 +139,30 @@ def _direct_task(task):
                     break
             if out['sample'] is None and size == k and first:
                 out['sample'] = dict(logic=name, operations=[opstr(ops[i]) for i in combo], data=first[:300])
+    if part == 0:
+        # a binary predicate over three constants with most, but not all, pairs stored (and worlds first used out of order)
+        import pytableaux.lang as G
+        vals = [v.name for v in L.Meta.values]
+        cs = [G.Constant(i, 0) for i in range(3)]
+        R = G.Predicate((1, 0, 2))
+        pairs = list(itertools.product(cs, repeat=2))
+        for nstored, w in ((6, 0), (7, 0), (8, 0), (4, 0), (6, 1 if L.Meta.modal else 0)):
+            for vi, v in enumerate(vals):
+                seq = [('pred', G.Predicated(R, t), w, vals[(vi + j) % len(vals)] if j % 3 == 0 else v) for j, t in enumerate(pairs[:nstored])]
+                if L.Meta.modal and w:
+                    seq = [('atom', G.Atomic(0, 0), 2, vals[-1])] + seq
+                kind, m = build(L, seq)
+                if kind != 'ok':
+                    continue
+                out['models'] += 1
+                out['evals'] += 1
+                try:
+                    p = data_problem(L, m)
+                except Exception as e:
+                    p = f'get_data() comparison raised {type(e).__name__}: {e}'
+                if p:
+                    out['viol'].append(dict(sig=f'{name}|direct|scenario|R-{nstored}-{v}-w{w}', what=f'{name}: model with {nstored} of 9 pairs of a binary predicate stored (world {w}): {p}',
+                                            replay=dict(kind='direct', logic=name, tier=tier, k=k)))
     return out
 
 def _branch_task(task):
